@@ -557,12 +557,16 @@ func runGoReplay(path string) (reproduced bool, output string) {
 	}
 	first := strings.SplitN(string(data), "\n", 2)[0]
 	var pkg, run string
+	race := false
 	for _, f := range strings.Fields(first) {
 		if strings.HasPrefix(f, "pkg=") {
 			pkg = f[4:]
 		}
 		if strings.HasPrefix(f, "run=") {
 			run = f[4:]
+		}
+		if f == "race=1" {
+			race = true
 		}
 	}
 	if pkg == "" || run == "" {
@@ -579,10 +583,15 @@ func runGoReplay(path string) (reproduced bool, output string) {
 	ovb, _ := json.Marshal(ov)
 	ovf := filepath.Join(tmp, "overlay.json")
 	os.WriteFile(ovf, ovb, 0o644)
-	cmd := exec.Command("go", "test", "-overlay", ovf, "-vet=off", "-count=1", "-timeout", "120s", "-run", "^"+run+"$", "./"+pkg)
+	args := []string{"test", "-overlay", ovf, "-vet=off", "-count=1", "-timeout", "120s", "-run", "^" + run + "$"}
+	if race {
+		// a data race is the failing observation: the race detector's report makes the test fail
+		args = append(args, "-race")
+	}
+	cmd := exec.Command("go", append(args, "./"+pkg)...)
 	cmd.Dir = repoDir
 	cmd.Env = append(os.Environ(), "GOFLAGS=-mod=mod", "GOPROXY=off", "GOSUMDB=off", "GOTOOLCHAIN=local")
 	out, _ := cmd.CombinedOutput()
 	s := string(out)
-	return strings.Contains(s, "REPRODUCED"), trunc(s, 6000)
+	return strings.Contains(s, "REPRODUCED") || (race && strings.Contains(s, "WARNING: DATA RACE")), trunc(s, 6000)
 }
